@@ -57,7 +57,9 @@ func loopEntry[T any](x T) T                     { return x }
 func exactCmpIF(i int64, f float64) int          { return 0 }
 func errIsCtx(err error) bool                    { return false }
 func sameSlice[T any](a, b []T) bool             { return len(a) == len(b) }
-func sameVal[T any](a, b T) bool                  { return true }
+func sameVal[T any](a, b T) bool                 { return true }
+func sameBase[T any](a, b []T) bool              { return true }
+func freshBase[T any](a []T) bool                { return true }
 func uninterp[T any](name string, args ...any) T { var z T; return z }
 func outCount() int                              { return 0 }
 func outFirst() any                              { return nil }
@@ -234,10 +236,27 @@ func IsBoolNode(n Node) bool {
 //@ ensures [C02] no-dot-otherwise: !(inKey && n.kind == ConstAnyKey) ==> outFirst() == any(n.kind.String())
 //@ atcall writeTo assert [C02] chain: arg_recv == n.next ==> arg_inKey && arg_withParens
 
+//@ func NewAny
+//@ props C15 C03 C02
+//@ ensures [C15] fresh: r0 != nil && fresh(r0) && r0.next == nil
+//@ ensures [C15 C03] first-bound: ite(first >= 0 && first < 4294967295, int(r0.first) == first, r0.first == 4294967295)
+//@ ensures [C15 C03] last-bound: ite(last >= 0 && last < 4294967295, int(r0.last) == last, r0.last == 4294967295)
+
+//@ func (*AnyNode).First
+//@ props C15
+//@ pure
+//@ ensures [C15] field: r0 == n.first
+
+//@ func (*AnyNode).Last
+//@ props C15
+//@ pure
+//@ ensures [C15] field: r0 == n.last
+
 //@ func (*AnyNode).writeTo
 //@ props C02 C15
 //@ modifies *buf
 //@ ensures [C02] dot-in-chain: inKey ==> outFirst() == any(rune('.'))
+//@ atcall Fprintf assert [C02 C15] levels-printed-as-written: (arg_format == "**{%v}" && n.first == n.last && n.first != 4294967295 && len(arg_a) == 1 && arg_a[0] == any(n.first)) || (arg_format == "**{last to %v}" && n.first == 4294967295 && n.last != 4294967295 && len(arg_a) == 1 && arg_a[0] == any(n.last)) || (arg_format == "**{%v to last}" && n.last == 4294967295 && n.first != 4294967295 && n.first != 0 && len(arg_a) == 1 && arg_a[0] == any(n.first)) || (arg_format == "**{%v to %v}" && n.first != n.last && n.first != 4294967295 && n.last != 4294967295 && len(arg_a) == 2 && arg_a[0] == any(n.first) && arg_a[1] == any(n.last))
 //@ atcall writeTo assert [C02] chain: arg_recv == n.next ==> arg_inKey && arg_withParens
 
 //@ func (*MethodNode).writeTo
@@ -271,6 +290,7 @@ func IsBoolNode(n Node) bool {
 //@ modifies *buf
 //@ atcall writeTo assert [C02] operand-parens: arg_recv == n.operand ==> !arg_inKey && arg_withParens == (n.operand.priority() <= n.priority())
 //@ atcall writeTo assert [C02] chain: arg_recv == n.next && arg_recv != n.operand ==> arg_inKey && arg_withParens
+//@ atcall Fprintf assert [C02 C03] pattern-quoted-readably: arg_format == " like_regex %q%v" && len(arg_a) == 2 && arg_a[0] == any(n.pattern) && arg_a[1] == any(n.flags)
 //@ ensures [C02] open-when-asked: withParens ==> outFirst() == any(rune('('))
 //@ ensures [C02] own-parens-with-chain: n.next != nil ==> outFirst() == any(rune('('))
 
@@ -345,6 +365,14 @@ func IsBoolNode(n Node) bool {
 //@ ensures [C12] dot-nl: r1 == nil && f&16 == 0 ==> (r0&8 != 0) == (f&2 != 0)
 //@ ensures [C12] multi-line: r1 == nil && f&16 == 0 ==> (r0&16 == 0) == (f&4 != 0)
 //@ ensures [C12] quote-ignores-s-m: r1 == nil && f&16 != 0 ==> r0&8 == 0 && r0&16 != 0
+
+//@ func (regexFlags).syntaxFlags
+//@ props C04 C12
+//@ pure
+
+//@ func validateRegex
+//@ props C04 C12
+//@ ensures [C04 C12] accepted-iff-parsable: (r0 == nil) == (uninterp[error]("ext_regexp_syntax_Parse_r1", pattern, flags.syntaxFlags()) == nil)
 
 //@ func (regexFlags).shouldQuoteMeta
 //@ props C12
